@@ -48,8 +48,8 @@ theorem TokLog.spans {TL : List Token → Nat → Nat → Local → Env → Prop
     · rintro l e ⟨rfl, rfl⟩; exact ⟨hti, hst⟩
     · rintro _ l e ⟨h1, h2⟩
       exact ⟨⟨_, h1⟩, h2⟩
-  · rintro len f l e cell kill ⟨ts, hti⟩ h1 h2
-    exact ⟨ts, (h.act ts).queue len f l e cell kill hti h1 h2⟩
+  · rintro len f l e cell kill ⟨ts, hti⟩ h1 h2 h3
+    exact ⟨ts, (h.act ts).queue len f l e cell kill hti h1 h2 h3⟩
   · rintro len f l e ps ⟨ts, hti⟩
     exact ⟨ts, (h.act ts).ps len f l e ps hti⟩
   · intro d len f st s b
